@@ -270,6 +270,11 @@ func New(opts ...RunnerOption) (*Runner, error) {
 		readDirHandler: DefaultReadDirHandler2(),
 		statHandler:    DefaultStatHandler(),
 		accessHandler:  DefaultAccessHandler(),
+
+		// Options such as Params("-o") may print; until StdIO is applied,
+		// the output is discarded, as documented above.
+		stdout: io.Discard,
+		stderr: io.Discard,
 	}
 	r.dirStack = r.dirBootstrap[:0]
 	// turn "on" the default Bash options
